@@ -377,6 +377,26 @@ func memoryClass(seg segment, evLine []byte, ev map[string]any) string {
 		pcs, _ := prev["cs"].([]any)
 		if incs(pcs) != incs(cs) {
 			reset = "on-reset"
+			// what the connection objects that disappeared were holding
+			now := map[string]bool{}
+			for _, x := range cs {
+				m, _ := x.(map[string]any)
+				now[fmt.Sprint(m["c"])] = true
+			}
+			gone := 0.0
+			for _, x := range pcs {
+				m, _ := x.(map[string]any)
+				if !now[fmt.Sprint(m["c"])] {
+					t, _ := m["tot"].(float64)
+					b, _ := m["beg"].(float64)
+					gone += t - b
+				}
+			}
+			if dir == "not-released" && gone > 0 && mem-held >= gone {
+				// the unchanged tree releases the allocated messages and leaks only the part
+				// granted for messages that had not started; releasing nothing is another defect
+				return "memory-nothing-released-on-reset"
+			}
 		}
 	}
 	return "memory-" + dir + "-" + reset
